@@ -592,10 +592,16 @@ fn run_case<H: HK>(case: &C20Case, scratch: &Scratch) -> Result<CaseInfo, Violat
                         committed += 1;
                     }
                     let (pc, pk, persistent, delayed) = r.poison;
-                    let class = POISON_CLASSES[pc as usize % POISON_CLASSES.len()];
+                    // pc >= 7: the fault hits the hash-table writeout AFTER the switch-over, while the rollback log's
+                    // clean-up task of the same sync (pruning: unlink of an old segment) is held back in the hook
+                    let post_meta = pc >= 7;
+                    let class = if post_meta { Some("ht") } else { POISON_CLASSES[pc as usize % POISON_CLASSES.len()] };
+                    if post_meta {
+                        rec.set_hold_unlink(Some(("rollback", 15_000 + s.below(25_000))));
+                    }
                     // the value-store part of the sync may be held back for some ms (hook site inside its
                     // background task), so that a failure elsewhere is reported first
-                    if delayed {
+                    if delayed && !post_meta {
                         rec.set_site_delay(Some((13, 15_000 + s.below(25_000))));
                     }
                     rec.watch(&dir, Some(FailPlan { k: pk as usize, persistent, errno: libc::EIO, class }));
@@ -603,6 +609,9 @@ fn run_case<H: HK>(case: &C20Case, scratch: &Scratch) -> Result<CaseInfo, Violat
                     let fired = !rec.fired().is_empty();
                     rec.unwatch();
                     rec.set_site_delay(None);
+                    if post_meta && r2.is_err() {
+                        info.bump("end_poison_post_switch_over_fault");
+                    }
                     match (&r2, fired) {
                         (Ok(_), false) => {
                             committed += 1;
@@ -618,6 +627,7 @@ fn run_case<H: HK>(case: &C20Case, scratch: &Scratch) -> Result<CaseInfo, Violat
                         }
                     }
                     db.close().map_err(|f| viol(step, f.sig()))?;
+                    rec.set_hold_unlink(None);
                 }
                 End::PoisonHeldWriteThenDrop => {
                     // needs >= 2 I/O workers (one holds a write, another one reports the failing write); reopen with that
@@ -799,7 +809,7 @@ impl Check for C20 {
          Nomt::open on an existing store or (first round, prefill 0) on an absent directory: exactly one may succeed, the winner sees the committed root; (2) INTRUSION - while the winner (a thread's handle \
          or a child process) is alive, idle or committing in a loop, 0..4 threads and 0..3 processes try to open: all must get Err (no panic), and when the holder is idle the directory (content hash, \
          file lengths, modification times incl. .lock) is identical before and after; (3) END - the holder ends by drop, by drop right after an unfinished session with warm-up requests, by drop after \
-         an uncommitted changeset, by drop after a commit failed through an injected I/O fault (poisoned), by drop after a commit failed while another page write of it was still held back in an I/O worker - with a second thread hammering Nomt::open during the drop, which may get in only when no operation of the old handle is in flight any more -, by a panic unwinding the owning thread, by SIGKILL idle or mid-commit, or by orderly child exit; \
+         an uncommitted changeset, by drop after a commit failed through an injected I/O fault (poisoned; the fault hits wal, ln, bbn, a rollback segment, meta, any file, or - after the switch-over - the hash-table writeout while the rollback log's pruning unlink of the same sync is held back in the hook), by drop after a commit failed while another page write of it was still held back in an I/O worker - with a second thread hammering Nomt::open during the drop, which may get in only when no operation of the old handle is in flight any more -, by a panic unwinding the owning thread, by SIGKILL idle or mid-commit, or by orderly child exit; \
          (4) REOPEN - Nomt::open right afterwards (no retry) must succeed, show the state the holder may have left (exactly the committed state, or committed/+1 for an interrupted commit), serve reads and \
          a further commit; in half of the cases the directory is first watched for 3 ms through the I/O hook and by content stamps: no write / append / resize / create / unlink event (late fsyncs are counted only) and no content change may occur after the \
          handle ended. Non-trivial = a scenario with a race of >= 2 openers and >= 1 cross-process attempt; distinct = distinct serialized case".into()
@@ -825,7 +835,7 @@ impl Check for C20 {
             2 => Just(End::KillBusy),
             1 => Just(End::ChildClose),
         ];
-        let poison = (0u8..7, 0u8..3, any::<bool>(), any::<bool>());
+        let poison = (0u8..9, 0u8..3, any::<bool>(), any::<bool>());
         let round = (1u8..=5, prop::sample::select(vec![0u8, 0, 1, 1, 2, 3]), any::<bool>(), 0u8..=4, prop::sample::select(vec![0u8, 0, 1, 2, 3]), prop::bool::weighted(0.3), 0u8..=2, end, any::<bool>(), poison)
             .prop_map(|(race_threads, race_procs, prefer_child_holder, intruder_threads, intruder_procs, busy, commits, end, watch_first, poison)| Round {
                 race_threads,
@@ -860,7 +870,32 @@ impl Check for C20 {
                 poison,
             }],
         });
-        prop_oneof![9 => general, 1 => fresh_poison].boxed()
+        // forced shape: rollback log with one record per segment and a limit of 1..2 commits (every commit prunes),
+        // a few commits, then a commit whose hash-table writeout (after the switch-over) fails while the pruning task
+        // of the same sync is held back; drop; nobody may write afterwards
+        let post_meta_poison = (gen::cfg_strategy(Just(true).boxed(), 2), any::<u64>(), 2u8..=3, 1u8..=2, 0u8..3, any::<bool>()).prop_map(|(mut cfg, seed, prefill, max_log, k, persistent)| {
+            cfg.rollback = true;
+            cfg.max_log = max_log as u32;
+            cfg.seg_records = 1;
+            C20Case {
+                cfg,
+                seed,
+                prefill,
+                rounds: vec![Round {
+                    race_threads: 1,
+                    race_procs: 0,
+                    prefer_child_holder: false,
+                    intruder_threads: 0,
+                    intruder_procs: 0,
+                    busy: false,
+                    commits: 2,
+                    end: End::PoisonThenDrop,
+                    watch_first: true,
+                    poison: (7, k, persistent, true),
+                }],
+            }
+        });
+        prop_oneof![17 => general, 2 => fresh_poison, 1 => post_meta_poison].boxed()
     }
     fn run(case: &C20Case, ctx: &Ctx) -> Result<CaseInfo, Violation> {
         match case.cfg.hasher {
